@@ -139,7 +139,8 @@ def build():
     # ------------------------------------------------------------------ recv_data (payload receive: loops until len bytes or end of stream)
     u.extracted_fn(conn, "recv_data", within=span,
                    body_rw=[("R19", r'vec!\[0u8; len\]', 'vec_zeroed(len)'),
-                            ("R20", r'rbuf\[data_read\.\.\]\.as_mut_ptr\(\) as \*mut c_void', 'tail_addr(&mut rbuf, data_read)'),
+                            ("R20", r'rbuf\[([^\]]*?)\.\.\]\.as_mut_ptr\(\) as \*mut c_void', r'tail_addr(&mut rbuf, \1)'),
+                            ("R20", r'rbuf\.as_mut_ptr\(\) as \*mut c_void', 'tail_addr(&mut rbuf, 0)'),
                             ("R20", r'unsafe \{ self\.sock\.recv_with_fds\(&mut iovs, &mut \[\]\)\? \}', 'self.sock_recv_with_fds(&mut iovs, &mut [])?')],
                    loops=[dict(kind="while", nth=0, text="""            invariant_except_break
                 data_read <= len,
